@@ -22,4 +22,10 @@ def run(rep, fb, tier):
     forward.rule_same_name(rep, fb, select=lambda f: f["name"] in ("getitem_field", "getitem_fields", "getitem_next", "getitem_next_jagged", "getitem_range", "getitem_range_nowrap", "carry", "setitem_field", "field", "fields", "key", "fieldindex", "haskey", "astuple"), floor=100)
     from ..rules import pyrules_records
     pyrules_records.run(rep)
+    from ..rules import pyrules as _pr
+    _pr.rule_py_unreachable(rep)
+    _pr.rule_py_callback_layout(rep)
+    from ..rules import pybind as _pb, pyrules as _pr2
+    _pb.rule_py_bindings(rep)
+    _pr2.rule_py_call_signature(rep)
     rep.units = fb.units
